@@ -5,6 +5,7 @@
    Part D  close / connection end / lag end the stream; unsubscribe is sent at most once *)
 From Coq Require Import List NArith ZArith Bool Lia.
 From JV Require Import Base.Bytes Base.Dec Model.Wire Model.ClientMgr.
+From JV Require Import Proofs.ClientDispatchFacts.
 Import ListNotations.
 Local Open Scope N_scope.
 Local Arguments N.add : simpl never.
@@ -454,7 +455,7 @@ Qed.
 Theorem array_of_notifs : forall s ms,
   forallb is_notif ms = true -> ms <> [] -> handle_back s (FArray ms) = ROk (fold_left notif_step ms s) [].
 Proof.
-  intros s ms H Hne. unfold handle_back. rewrite array_loop_notifs by exact H.
+  intros s ms H Hne. rewrite handle_back_now; unfold handle_back_ref. rewrite array_loop_notifs by exact H.
   destruct ms; [contradiction|]. reflexivity.
 Qed.
 
@@ -517,7 +518,7 @@ Qed.
 
 Theorem classify_array : forall raw ts, raw_array raw = Some ts -> classify_frame raw = FArray (map classify_elem ts).
 Proof.
-  intros raw ts H. unfold classify_frame.
+  intros raw ts H. rewrite classify_frame_now.
   assert (Hd : exists r, drop_while is_ascii_ws raw = x5b :: r).
   { unfold raw_array in H. destruct (skip_ws raw) as [|c s1] eqn:E; [discriminate|].
     destruct (beqb c x5b) eqn:Ec; [|discriminate]. apply byte_eqb_eq in Ec. subst c.
@@ -1050,7 +1051,7 @@ Proof.
   intros s raw me sid p rid u ch um c Hu Hq Hqu Hw Hcls H1 H2 Hc Hr r. subst r.
   pose proof (sub_chan_of_lookups _ _ _ _ _ _ H1 H2) as Hs.
   unfold step, apply. destruct Hu as [Hg [Hd [Hdy [Hsf Hb]]]]. rewrite Hd, Hdy, Hcls.
-  cbn [handle_back handle_elem_single].
+  rewrite ?handle_back_now; cbn [handle_back_ref handle_elem_single_ref].
   rewrite (sub_deliver_refused_room s sid p ch c Hs Hc Hr Hqu Hw Hq).
   set (s1 := frame _ _ _ _).
   assert (Hu1 : ungated s1) by (unfold ungated; auto).
@@ -1129,4 +1130,76 @@ Proof.
   destruct (settle s1) as [s2 o2]. cbn [fst snd app] in *.
   split; [exact Hwi|]. split; [|auto].
   intro Hun. apply (f_equal snd) in E. cbn [snd] in E. rewrite E, finish_unsubs_nil; [reflexivity|exact Hun].
+Qed.
+
+(* ================================================================== Part F: the dispatch read from the source *)
+From JV Require Import Model.ClientDispatch Gen.ClientDispatchGen.
+
+(* the dispatch d with the readers of its two tables tried in the order rs (each reader keeps the arm it has in d) *)
+Definition reorder_readers (rs : list reader) (d : dispatch) : dispatch :=
+  {| d_first := d_first d; d_first_default := d_first_default d;
+     d_single := flat_map (fun r => match single_action r (d_single d) with Some a => [(r, a)] | None => [] end) rs;
+     d_single_no_reader := d_single_no_reader d;
+     d_elem := flat_map (fun r => match elem_action r (d_elem d) with Some (a, g) => [(r, a, g)] | None => [] end) rs;
+     d_elem_no_reader := d_elem_no_reader d;
+     d_post := d_post d |}.
+
+(* the read task on one transport message, under a given dispatch *)
+Definition read_with (d : dispatch) (s : st) (raw : bytes) : rres := handle_back_with d s (classify_frame_with d raw).
+
+Definition ow_push : bytes := b#"{""jsonrpc"":""2.0"",""method"":""sub"",""params"":{""subscription"":7,""result"":1}}".
+Definition ow_state : st :=
+  fst (run (init false 4 4 false)
+         [FSubscribe 1 b#"sub" b#"unsub" None; Back b#"{""jsonrpc"":""2.0"",""id"":0,""result"":7}"]).
+Definition ow_array : bytes := x5b :: ow_push ++ [x5d].
+
+(* C05_dispatch_order_matters: subscription 7 is active with an empty stream (channel 1).  With the dispatch read from the
+   source its notification -- alone or as the element of an array -- lands in that stream.  With the same arms but
+   Notification tried before SubscriptionResponse the same bytes are a plain notification for method "sub" (nobody
+   registered for it): the read task answers Ok and the stream stays empty. *)
+Theorem dispatch_order_matters :
+  let d_swapped := reorder_readers [TryResponse; TryNotification; TrySubResponse; TrySubError] client_dispatch in
+  exists (s : st) (raw : bytes) (sid : subid) (ch : handle) (c : chan) (item : bytes),
+    sub_chan s sid = Some ch /\ chan_of s ch = Some c /\ accepts c /\
+    classify_frame raw = FSingle (ISubNotif b#"sub" sid item) /\
+    (exists s1, read_with client_dispatch s raw = ROk s1 [] /\ chan_of s1 ch = Some (push_buf c item)) /\
+    (exists s1, read_with client_dispatch s (x5b :: raw ++ [x5d]) = ROk s1 [] /\ chan_of s1 ch = Some (push_buf c item)) /\
+    (exists s2, read_with d_swapped s raw = ROk s2 [] /\ chan_of s2 ch = Some c) /\
+    (exists s2, read_with d_swapped s (x5b :: raw ++ [x5d]) = ROk s2 [] /\ chan_of s2 ch = Some c).
+Proof.
+  exists ow_state, ow_push, (SubNum 7), 1, (new_chan 4), b#"1".
+  vm_compute. repeat split; try (eexists; split; reflexivity); auto.
+Qed.
+
+(* C05_array_close_is_pushed.  The loop over a concatenation, for any dispatch ... *)
+Lemma array_run_with_app d : forall pre post s acc rng got,
+  array_run_with d s (pre ++ post) acc rng got =
+  match array_run_with d s pre acc rng got with
+  | inl (s1, acc1, rng1, got1) => array_run_with d s1 post acc1 rng1 got1
+  | inr r => inr r
+  end.
+Proof.
+  induction pre as [|x pre IH]; intros post s acc rng got; [reflexivity|].
+  cbn [app array_run_with]. destruct (elem_step d s x acc rng got) as [[[[s1 a1] r1] g1]|r]; [apply IH | reflexivity].
+Qed.
+
+(* ... and one subscription notification under the dispatch read from the source: whatever `sub_deliver` did -- including
+   asking for the subscription to be closed (C05_refused_item_requests_unsubscribe) -- the loop goes on *)
+Lemma array_run_sub_notif s me sid p post acc rng got :
+  array_run s (ISubNotif me sid p :: post) acc rng got = array_run (sub_deliver s sid p) post acc rng true.
+Proof.
+  unfold array_run. cbn [array_run_with]. unfold elem_step. cbn [d_elem client_dispatch reader_of].
+  destruct elem_actions_now as (_ & -> & _). reflexivity.
+Qed.
+
+Theorem array_close_is_pushed : forall s pre me sid p post acc rng got,
+  array_run s (pre ++ ISubNotif me sid p :: post) acc rng got =
+  match array_run s pre acc rng got with
+  | inl (s1, acc1, rng1, got1) => array_run (sub_deliver s1 sid p) post acc1 rng1 true
+  | inr r => inr r
+  end.
+Proof.
+  intros. unfold array_run at 1 2. rewrite array_run_with_app.
+  destruct (array_run_with client_dispatch s pre acc rng got) as [[[[s1 a1] r1] g1]|r]; [|reflexivity].
+  apply array_run_sub_notif.
 Qed.
